@@ -54,7 +54,7 @@ def _pipes(tier):
         {"kind": "pipe", "base": emb, "ops": [["multiply_other"]]},
         {"kind": "pipe", "base": emb, "ops": [["multiply_other"], ["integrate", None]]},
         {"kind": "pipe", "base": emb, "ops": [["conjugate"]]},
-        {"kind": "pipe", "base": emb_qg, "ops": [["integrate", [0, 3]], ["conjugate"]]},
+        {"kind": "pipe", "base": emb_qg, "ops": [["conjugate"], ["integrate", [0, 3]]]},
         {"kind": "pipe", "base": emb_qg, "ops": [["concatenate", 2]]},
         {"kind": "pipe", "base": gau, "ops": [["integrate", [1]]]},
         {"kind": "pipe", "base": gau, "ops": [["square"]]},
